@@ -159,14 +159,23 @@ def apply_event(ev, executors):
     if kind == "ext":
         executors[ev[1]][1].add_extended_md({"docker": DockerSpec("base/image:0")})
         return ("ok",)
-    if kind == "tr":
+    if kind in ("tr", "again"):
         b, exe = executors[ev[1]]
         text = MENUS[b][ev[2]][0]
-        pkg = translate_ast(parse_query(text), b, query_text=text, executor=exe, fresh=False)
+        if kind == "tr":
+            a = parse_query(text)
+            _AST_OBJECTS[(b, ev[2])] = a       # the very object handed to the library
+        else:
+            # the caller translates the SAME query object once more (ObjectStream.value() called twice)
+            a = _AST_OBJECTS[(b, ev[2])]
+        pkg = translate_ast(a, b, query_text=text, executor=exe, fresh=False)
         if pkg.ok:
             return ("pkg", digest_files(pkg.files), pkg.files)
         return ("exc", pkg.exc_type, normalise_text(pkg.exc_msg or ""))
     raise ValueError(ev)
+
+
+_AST_OBJECTS = {}     # (backend, menu query) -> the ast object most recently handed to the library in this process
 
 
 def enabled_events(history, max_exec):
@@ -174,9 +183,14 @@ def enabled_events(history, max_exec):
     backends = [e[1] for e in history if e[0] == "new"]
     if len(backends) < max_exec:
         evs += [("new", b) for b in BACKENDS]
+    handed = []
+    for e in history:
+        if e[0] == "tr" and (backends[e[1]], e[2]) not in handed:
+            handed.append((backends[e[1]], e[2]))
     for i, b in enumerate(backends):
         evs.append(("ext", i))
         evs += [("tr", i, q) for q in MENUS[b]]
+        evs += [("again", i, q) for (hb, q) in handed if hb == b]
     return evs
 
 
@@ -289,7 +303,7 @@ def main(tier="quick"):
                 transitions += 1
                 okey = out[:2] if out[0] == "pkg" else out
                 table[ev] = okey
-                if ev[0] == "tr":
+                if ev[0] in ("tr", "again"):
                     validated += 1
                     b = [e[1] for e in h if e[0] == "new"][ev[1]]
                     outcomes_per_query.setdefault((b, ev[2]), set()).add(okey)
@@ -329,7 +343,7 @@ def main(tier="quick"):
     for h, ev, got, want in sorted(bad, key=lambda x: (len(x[0]), str(x))):
         mh = minimise(h, ev, want, max_exec)
         b = [e[1] for e in mh if e[0] == "new"][ev_index(mh, h, ev)]
-        culprits = sorted({e[2] if e[0] == "tr" else e[0] for e in mh if e[0] != "new"})
+        culprits = sorted({e[2] if e[0] == "tr" else e[0] for e in mh if e[0] != "new"} | ({"same-object-again"} if ev[0] == "again" else set()))
         feat = {"culprits": culprits, "probe": ev[2], "probe_backend": b,
                 "executor_backends": sorted({e[1] for e in mh if e[0] == "new"}),
                 "n_executors": sum(1 for e in mh if e[0] == "new"),
@@ -398,7 +412,7 @@ def minimise(h, ev, want, max_exec):
                 # an executor can only be dropped if nothing refers to it or to later ones
                 idx = sum(1 for x in cur[:i] if x[0] == "new")
                 nnew = sum(1 for x in cur if x[0] == "new")
-                if idx != nnew - 1 or ev[1] == idx or any(x[0] in ("tr", "ext") and x[1] == idx for x in cur):
+                if idx != nnew - 1 or ev[1] == idx or any(x[0] in ("tr", "again", "ext") and x[1] == idx for x in cur):
                     continue
             cand = cur[:i] + cur[i + 1:]
             try:
